@@ -7,6 +7,8 @@ from bounded import harness, oracle, state
 import gfapy
 
 SEQ = {"A": "AACCGG", "B": "CCGGTT", "C": "GGTTAA", "D": "TTAACC", "E": "ACGTAC"}
+# the same overlaps (first and last two letters), with ambiguity codes inside: their reverse complement is not the ACGT one
+SEQ_IUPAC = {"A": "AASRGG", "B": "CCWYTT", "C": "GGSKAA", "D": "TTWBCC", "E": "ACSDAC"}
 
 
 def ends_of_link(f):
@@ -252,9 +254,10 @@ def cases(tier, seed):
         k = rng.randrange(2, 6)
         segs = names[:k]
         with_seq = rng.random() < 0.7
+        table = SEQ_IUPAC if rng.random() < 0.4 else SEQ
         lines = []
         for s in segs:
-            lines.append("S\t%s\t%s" % (s, SEQ[s] if with_seq else "*"))
+            lines.append("S\t%s\t%s" % (s, table[s] if with_seq else "*"))
         m = rng.randrange(1, 6)
         seen = set()
         for _ in range(m):
